@@ -3,6 +3,7 @@ import Norad.Lemmas.C16Stable
 import Norad.Lemmas.C16Save
 import Norad.Lemmas.C16List
 import Norad.Lemmas.C16Order
+import Norad.Generated.StoreConsts
 /-!
 # C16 — data and image stores keep their invariants and their bytes
 
@@ -456,6 +457,32 @@ theorem store_save_order_independent (s : Store) (h : Inv s)
   have hpw2 : (storeWrites base ws₂).Pairwise NonNested :=
     (hp2.pairwise_iff (fun {a b} => NonNested.symm)).1 hpw
   exact writeAll_lookup t _ hpw2 (destOf base w.key, w.bytes) (List.mem_map.2 ⟨w, hw, rfl⟩)
+
+/-! ## source-level tie (constants re-extracted from `src/datastore.rs` / `src/font.rs` on every run) -/
+
+/-- the signature `Image::validate_entry` tests is the eight-byte PNG signature of the model -/
+theorem source_png_signature_matches_model : Generated.StoreConsts.pngSignature = pngSig := by decide
+
+/-- the directories the stores are listed from and written to are the model's -/
+theorem source_store_dirs_match_model :
+    Generated.StoreConsts.dataDir = storeDirName .data ∧
+    Generated.StoreConsts.imagesDir = storeDirName .image := by decide
+
+/-- the loop of `save_impl` before the wipe visits both stores, as `saveStores` does: an image entry
+    in error state refuses the save although the data store is clean -/
+theorem source_force_loop_covers_both_stores :
+    Generated.StoreConsts.forceLoopVisitsData = true ∧ Generated.StoreConsts.forceLoopVisitsImages = true ∧
+    (saveStores ⟨.data, [(['a'], .loaded [1])]⟩ ⟨.image, [(['b'], .error .invalidImage)]⟩
+        (fun _ => none) (fun _ => none)).2 = .refused ['b'] := by decide
+
+/-- the early returns of the two `validate_entry` are the model's, as sets of `StoreError` variants
+    (the order of independent early returns is not part of the property) -/
+theorem source_validate_clauses_match_model :
+    (Generated.StoreConsts.dataClauses.all fun v => (dataClauseErrs.map Err.variantName).contains v) = true ∧
+    ((dataClauseErrs.map Err.variantName).all fun v => Generated.StoreConsts.dataClauses.contains v) = true ∧
+    (Generated.StoreConsts.imageClauses.all fun v => (imageClauseErrs.map Err.variantName).contains v) = true ∧
+    ((imageClauseErrs.map Err.variantName).all fun v => Generated.StoreConsts.imageClauses.contains v) = true := by
+  decide
 
 /-! ## what is false of the code: `.` and `..` components, trailing separators (recorded findings) -/
 
